@@ -407,6 +407,12 @@ fn main() {
                         let pat = case["pattern"].as_str().unwrap().to_string();
                         let v = bit_vec::BitVec::from_fn(len, |i| match pat.as_str() { "zeros" => false, "ones" => true, "alt" => i % 2 == 0, _ => i + 1 == len });
                         roundtrip::<bit_vec::BitVec>("BitVec", &v, &mut rng, &mut rep);
+                        // the same bit patterns as a signer set, alone and inside a commit certificate (a certificate under construction has no signer yet)
+                        let sg = validator::v2::Signers(v.clone());
+                        roundtrip::<validator::v2::Signers>("Signers", &sg, &mut rng, &mut rep);
+                        let mut qc: validator::v2::CommitQC = rng.gen();
+                        qc.signers = sg;
+                        roundtrip::<validator::v2::CommitQC>("CommitQC", &qc, &mut rng, &mut rep);
                     }
                     "rate" => {
                         let refresh = match case["refresh"].as_str().unwrap() { "0" => time::Duration::ZERO, "1" => time::Duration::nanoseconds(1), _ => time::Duration::MAX };
